@@ -194,6 +194,9 @@ func Gen(cfg Config) func(t *rapid.T) Script {
 				}
 				if cfg.BadManifests && rapid.IntRange(0, 11).Draw(t, "badDesc") == 0 {
 					m.BadDesc = rapid.IntRange(1, 3).Draw(t, "badDescKind")
+					if m.SubjectKind != 0 && rapid.Bool().Draw(t, "badSubject") {
+						m.BadDesc += 4
+					}
 				}
 				if cfg.BadManifests && m.Kind == "index" && len(m.Children) > 0 && m.BadDesc == 0 && rapid.IntRange(0, 3).Draw(t, "lyingChildType") == 0 {
 					m.BadDesc = 4
